@@ -138,22 +138,30 @@ def context_programs(h: Harness):
                 h.count("context-grammar-programs")
 
 
-def run(h: Harness):
-    rng = h.rng
-    context_programs(h)
-    for _ in range(h.n(150, 3000)):
-        # a third of the grammars count depth by grammar expansion (extract_grammar(..., expansion_depthing=True))
-        expansion = rng.random() < 0.33
-        spec = gram.productive_spec(rng, max_classes=rng.choice([3, 4, 6]), opts={"float": False}, expansion=expansion)
-        h.count("depth-mode:expansion" if expansion else "depth-mode:nodes")
+def corpus():
+    """fixed witnesses: a layered abstract hierarchy (Expr > Atom > Const > Lit) whose upper class types fields, plain and
+    size-refined lists, tuples and unions of it -- in both depth modes"""
+    C = gram.ClassSpec
+    out = []
+    for expansion in (True, False):
+        out.append(gram.Spec([C("Expr", True, None), C("Atom", True, 0), C("Const", True, 1), C("Lit", False, 2, [("v", ("ann", "int", ("intRange", 0, 9)))]),
+                              C("Neg", False, 0, [("arg", ("cls", 0))]), C("Seq", False, 0, [("xs", ("list", ("cls", 0)))]),
+                              C("Pair", False, 1, [("p", ("tuple", ("cls", 0), ("cls", 2)))]),
+                              C("Bag", False, 0, [("ys", ("ann", ("list", ("cls", 1)), ("listSize", 1, 2))), ("u", ("union", ("cls", 2), "bool"))])],
+                             0, [3, 4, 5, 6, 7, 0, 1, 2], expansion))
+    return out
+
+
+def exercise(h: Harness, spec, rng):
+    if True:
         b = gram.build(spec)
         try:
             g = b.extract()
         except Exception:  # noqa: BLE001
-            continue
+            return
         mind = g.get_min_tree_depth()
         if mind >= 1000000:
-            continue
+            return
         if rng.random() < 0.4:
             check_mapped_programs(h, spec, b, g, mind, rng)
         for _ in range(3):
@@ -181,3 +189,18 @@ def run(h: Harness):
                 check_labels(h, f"TreeBasedRepresentation.{name}", spec, b, x)
             # the parent must still be correctly labelled afterwards
             check_labels(h, "parent-after-variation", spec, b, v)
+
+
+def run(h: Harness):
+    rng = h.rng
+    context_programs(h)
+    for spec in corpus():
+        for _ in range(h.n(4, 20)):
+            exercise(h, spec, rng)
+        h.count("corpus-grammars")
+    for _ in range(h.n(150, 3000)):
+        # a third of the grammars count depth by grammar expansion (extract_grammar(..., expansion_depthing=True))
+        expansion = rng.random() < 0.33
+        spec = gram.productive_spec(rng, max_classes=rng.choice([3, 4, 6]), opts={"float": False}, expansion=expansion)
+        h.count("depth-mode:expansion" if expansion else "depth-mode:nodes")
+        exercise(h, spec, rng)
